@@ -413,6 +413,10 @@ def rules(ctx):
     # computed from the rejected assignment is served afterwards (same structural rule as C02.R3, decided on the same code)
     from .c02 import r3_revert_structure
     r3_revert_structure(ctx, rid="C01.R7", title="State.revert restores or invalidates every forked entry (no stale derived value survives a revert)")
+    # ... and what a revert restores must be the snapshot of the *last* assignment (any assignment, also an un-setting one, refreshes it):
+    # otherwise a revert answers with the cached descendants of an older assignment (same rule as C02.R1)
+    from .c02 import r1_snapshot
+    r1_snapshot(ctx, rid="C01.R8", title="every assignment refreshes the snapshot a revert restores (taken exactly when auto-fork is on, before the store)")
     ctx.trust("CPython ast; Python dict semantics; torch out-of-place semantics of methods whose name does not end in '_'")
     ctx.assume("sorted_children / sorted_ancestors of VariablesDAG are the exact transitive closures in topological order (C15)")
 
